@@ -46,7 +46,9 @@ CheckLeaf(r, j, rec, N, iv, spec, t, x, ol) ==
   /\ Chk(ol.space = NearestAttr(N, N[x].parent, "space", IF rec.space = "" THEN "default" ELSE rec.space),
          r, j, Cl(rec, "space"), N[x].tag)
   /\ Chk(ol.lang = NearestAttr(N, N[x].parent, "lang", rec.lang), r, j, Cl(rec, "lang"), N[x].tag)
-  /\ Chk(SeqSeqEq(ol.chain, LeafChain(N, rec.I, spec, iv, x, t)), r, j, Cl(rec, "style_token"), N[x].tag)
+  /\ IF StyleGraphAcyclic(rec.S)
+     THEN Chk(SeqSeqEq(ol.chain, LeafChain(N, rec.I, spec, iv, x, t)), r, j, Cl(rec, "style_token"), N[x].tag)
+     ELSE TRUE
 
 CheckRegion(r, j, rec, N, iv, spec, t, rid, o) ==
   LET exp == SelectSeq(TextNodes(N), LAMBDA x : XmlVisible(N, iv, x, t) /\ RegionOf(N, x) = rid)
@@ -54,7 +56,7 @@ CheckRegion(r, j, rec, N, iv, spec, t, rid, o) ==
   IN  IF ~(Len(ol) = Len(exp) /\ \A k \in 1..Len(ol) : ol[k].tag = N[exp[k]].tag)
       THEN Fail(r, j, Cl(rec, "region_of"), rid)
       ELSE /\ \A k \in 1..Len(ol) : CheckLeaf(r, j, rec, N, iv, spec, t, exp[k], ol[k])
-           /\ IF Len(exp) > 0 /\ rid # ""
+           /\ IF Len(exp) > 0 /\ rid # "" /\ StyleGraphAcyclic(rec.S)
               THEN Chk(SeqEq(ObsReg(o, rid).rsty, Tokens(N, rec.I, spec, iv, RegionNode(N, rid), t, 0)),
                        r, j, Cl(rec, "region_style_token"), rid)
               ELSE TRUE
